@@ -60,10 +60,16 @@ fn pick_h(side: &mut Matcher, rng: &mut Rng, voc: &Vocab, eos_pct: usize, hints:
             return Some(t);
         }
     }
-    if ids.contains(&eos) && (ids.len() == 1 || rng.chance(eos_pct, 100)) {
-        return Some(eos);
+    // every end-of-sequence token of the vocabulary ends the run: pick any of them (the primary one half of the time)
+    let alle = voc.all_eos();
+    let eoss: Vec<u32> = ids.iter().cloned().filter(|t| alle.contains(t)).collect();
+    if !eoss.is_empty() && (eoss.len() == ids.len() || rng.chance(eos_pct, 100)) {
+        if eoss.contains(&eos) && rng.chance(50, 100) {
+            return Some(eos);
+        }
+        return Some(*rng.pick(&eoss));
     }
-    let non: Vec<u32> = ids.into_iter().filter(|&t| t != eos).collect();
+    let non: Vec<u32> = ids.into_iter().filter(|t| !alle.contains(t)).collect();
     if non.is_empty() {
         return Some(eos);
     }
